@@ -162,6 +162,9 @@ func main() {
 		}
 	}
 	repDir := filepath.Join(sim.VerifDir(), "replays")
+	if d := os.Getenv("VERIF_REPLAY_DIR"); d != "" {
+		repDir = d
+	}
 	_ = os.MkdirAll(repDir, 0o755)
 	seen := map[string]bool{}
 	nviol := 0
@@ -411,6 +414,9 @@ func writeEvidence(p sim.Property, id, tier string, seed uint64, shards int, s *
 	}
 	b, _ := json.MarshalIndent(ev, "", " ")
 	dir := filepath.Join(sim.VerifDir(), "evidence")
+	if d := os.Getenv("VERIF_EVIDENCE_DIR"); d != "" { // sensitivity runs against scratch trees must not touch the real evidence
+		dir = d
+	}
 	_ = os.MkdirAll(dir, 0o755)
 	_ = os.WriteFile(filepath.Join(dir, id+".json"), b, 0o644)
 }
